@@ -57,6 +57,25 @@ theorem C07_gauss (env : Nat → ℝ) (x n mu sd : Expr ℝ) :
     -mul_eq_mul_right_iff]
   close_rule
 
+/-- **C07 (Gaussian model, both branches of the width).** The pre-set Gaussian depends on `std`
+    only through `std²`: a width `sd'` with the opposite sign gives the same function, so
+    `(norm, mean, −std)` is a parameter set in its own right (a fit started from a negative width
+    returns one) and `fit_function` must be the SAME curve there.  Stated for the generated term:
+    a rewrite that is equal only for `std > 0` (e.g. `sqrt(2π)·std` for `sqrt(2π·std²)`) makes
+    this, like `C07_gauss`, unprovable. -/
+theorem C07_gauss_even (env : Nat → ℝ) (x n mu sd sd' : Expr ℝ)
+    (h : eval env sd' = -eval env sd) :
+    eval env (Gen.fitRule .gaussian x [n, mu, sd'])
+      = eval env (Gen.fitRule .gaussian x [n, mu, sd]) := by
+  rw [C07_gauss, C07_gauss, h, neg_sq]
+
+/-- non-vacuity of `C07_gauss_even`: the widths `2` and `−2` -/
+example : eval (fun _ => (0:ℝ)) (Gen.fitRule .gaussian (Expr.const 1)
+      [Expr.const 3, Expr.const 0, Expr.const (-2)])
+    = eval (fun _ => (0:ℝ)) (Gen.fitRule .gaussian (Expr.const 1)
+      [Expr.const 3, Expr.const 0, Expr.const 2]) :=
+  C07_gauss_even _ _ _ _ _ _ (by simp [eval])
+
 /-- non-vacuity / the documented example: coefficients `[3, 1]` (as `polyfit` returns them for
     y = 3x + 1) evaluate to 7 at x = 2 -/
 example : eval (fun _ => (0:ℝ)) (Gen.fitRule .polynomial (Expr.const 2) [Expr.const 3, Expr.const 1])
